@@ -376,7 +376,19 @@ fn judge_grid(it: &crate::grid::GridItem, stats: &mut Stats) -> Verdict {
     };
     stats.class(crate::grid::describe(it));
     eng::set_counter_wish(0, 1);
-    judge_api(&p, stats)?;
+    // consecutive grid items are often occupancy twins (the same squares, another kind of blocker):
+    // a failing answer may depend on what this worker's generator was asked just before, so the
+    // previous position goes into the replay file with it
+    thread_local! { static PREV: std::cell::RefCell<Option<String>> = std::cell::RefCell::new(None); }
+    let prev = PREV.with(|c| c.borrow().clone());
+    PREV.with(|c| *c.borrow_mut() = Some(eng::fen(&p)));
+    judge_api(&p, stats).map_err(|mut f| {
+        if let Some(pf) = &prev {
+            f.detail["asked_just_before_on_the_same_generator"] = json!(pf);
+            f.detail["replay"] = json!({"sequence": [pf, eng::fen(&p)]});
+        }
+        f
+    })?;
     rights_twins(&p, stats)?;
     if let Some(q) = crate::grid::with_defender(it, &p) {
         judge_api(&q, stats)?;
